@@ -1,3 +1,57 @@
-(* Suite "period": requests evaluated by the model for the correspondence check (stub). *)
-From Klog Require Import Base.Prelude Model.Show Model.Period.
-Definition suite_period (cmd : bytes) (args : list bytes) : option bytes := None.
+(* Suite "period" (C15): requests evaluated by the model for the correspondence check.
+     cal-date <y> <m> <d>      every calendar observable of one date (see [show_cal])
+     cal-plus <y> <m> <d> <n>  Date.PlusDays(n)
+     period-pattern <hex>      period.NewPeriodFromPatternString *)
+From Klog Require Import Base.Prelude Model.Calendar Model.Show Model.Period.
+Open Scope Z_scope.
+
+Definition show_cd (c : cdate) : bytes :=
+  dec (c_year c) ++ [45%N] ++ dec (c_month c) ++ [45%N] ++ dec (c_day c).
+
+Definition show_tok {A} (f : A -> bytes) (x : outcome A) : bytes :=
+  match x with Ok a => f a | Err _ => b!"err" | Crash _ => b!"crash" end.
+
+Definition show_period (p : period) : bytes := show_cd (fst p) ++ [47%N] ++ show_cd (snd p).
+
+Definition kinds : list kind := [KWeek; KMonth; KQuarter; KYear].
+Definition plus_list : list Z := [1; -1; 7; -7; -25; -80].
+
+(* ok <weekday> <iso year> <iso week> <quarter> <PlusDays 1 -1 7 -7 -25 -80>
+      <Period() of week month quarter year> <Previous().Period() of the same> <Hash() of day week month quarter year> *)
+Definition show_cal (c : cdate) : bytes :=
+  words ([b!"ok"; dec (weekday c); dec (fst (iso_week c)); dec (snd (iso_week c)); dec (quarter c)]
+         ++ map (fun n => show_tok show_cd (plus_days c n)) plus_list
+         ++ map (fun k => show_tok show_period (period_of k c)) kinds
+         ++ map (fun k => show_tok show_period (previous_period k c)) kinds
+         ++ [show_tok dec (day_hash c)]
+         ++ map (fun k => show_tok dec (hash_of k c)) kinds).
+
+Definition suite_period (cmd : bytes) (args : list bytes) : option bytes :=
+  if bytes_eqb cmd b!"cal-date" then
+    match args with
+    | [y; m; d] =>
+      Some (match new_date (parse_int y) (parse_int m) (parse_int d) with
+            | Some c => show_cal c
+            | None => b!"err"
+            end)
+    | _ => None
+    end
+  else if bytes_eqb cmd b!"cal-plus" then
+    match args with
+    | [y; m; d; n] =>
+      Some (match new_date (parse_int y) (parse_int m) (parse_int d) with
+            | Some c => words [b!"ok"; show_tok show_cd (plus_days c (parse_int n))]
+            | None => b!"err"
+            end)
+    | _ => None
+    end
+  else if bytes_eqb cmd b!"period-pattern" then
+    match args with
+    | [s] => Some (match period_from_pattern (arg_bytes s) with
+                   | Ok p => words [b!"ok"; show_period p]
+                   | Err _ => b!"err"
+                   | Crash _ => b!"crash"
+                   end)
+    | _ => None
+    end
+  else None.
